@@ -18,7 +18,8 @@ Proof. unfold lget. now rewrite Nat2Z.id. Qed.
 Lemma lset_natZ l (c : nat) v : lset l (Z.of_nat c) v = upd_nth c v l.
 Proof. unfold lset. now rewrite Nat2Z.id, lset_nat_upd_nth. Qed.
 
-(* decide a goal made of integer arithmetic, comparisons, if-then-else and the Leaf helpers *)
+(* decide a goal made of integer arithmetic, comparisons, if-then-else and the Leaf helpers;
+   every arithmetic call is time-limited so that a false goal (changed C text) fails instead of searching for ever *)
 Ltac leaf_decide :=
   cbv zeta;
   unfold wrapu, crem, cdiv, b2z, z2b in *;
@@ -29,7 +30,7 @@ Ltac leaf_decide :=
   repeat (rewrite Z.mod_small by lia);
   repeat (rewrite Z.rem_mod_nonneg by lia);
   repeat (rewrite Z.mod_small by lia);
-  try reflexivity; try lia; try nia.
+  first [ reflexivity | timeout 20 lia | timeout 40 nia ].
 
 Lemma gen_check_eq s now : wf s ->
   gen_muggle_flow_ctl_check (arr s) (Z.of_nat (cursor s)) (tw s) now = check s now.
